@@ -8,6 +8,7 @@ CONSTANTS
     Debug = TRUE
     HookMode = "panic_end"
     PvSet = TRUE
+    Hang = FALSE
     DrainOnRefusal = TRUE
 VIEW View
 INVARIANTS InFrame NeverMisframed
